@@ -67,6 +67,10 @@ func runC07(r *Run) {
 		j      int // bytes read before abandoning
 		buf    int
 		useRead bool // whole-message Conn.Read instead of Reader
+		// intrude: Reader is called again while the message is open (its final frame has
+		// not even been sent yet); the call fails, other connections make progress, and
+		// the application goes on reading the open message
+		intrude bool
 	}
 	type connPlan struct {
 		id    int
@@ -107,6 +111,7 @@ func runC07(r *Run) {
 				mp.j = 1 + t.Draw(mp.n)
 				mp.buf = []int{512, 7, 64, 4096, 32768}[t.Draw(5)]
 				mp.useRead = t.Pct(30)
+				mp.intrude = t.Pct(25)
 				if mp.action == 3 {
 					mp.n = 40000
 					mp.frags = SplitFrags(t, mp.n)
@@ -223,6 +228,12 @@ func runC07(r *Run) {
 							fs = nil
 							peer.Inject(b[:len(b)/2+1])
 						}
+						var heldBack []wsref.Frame
+						intrude := mp.intrude && mp.action <= 1 && len(fs) >= 2 && !(mp.useRead && mp.action == 0)
+						if intrude {
+							heldBack = fs[len(fs)-1:]
+							fs = fs[:len(fs)-1]
+						}
 						if fs != nil {
 							peer.Inject(peer.Encode(fs...))
 						}
@@ -272,6 +283,18 @@ func runC07(r *Run) {
 								cancel()
 							}
 							break
+						}
+						if intrude {
+							// the message is open and its final frame has not been sent: a second
+							// Reader call has to be refused and must not disturb the open message
+							_, _, ierr := c.Reader(ctx)
+							r.S.Park("a." + who + ".intruded") // other connections make progress
+							peer.Inject(peer.Encode(heldBack...))
+							if ierr == nil {
+								r.Violate("second-reader-accepted", sig, "conn %d message %d: Reader returned without error while the previous message was still open (its final frame had not been sent)", cp.id, seq)
+								return
+							}
+							r.S.Count("probe.reader-called-mid-message")
 						}
 						buf := make([]byte, mp.buf)
 						var got []byte
